@@ -2,6 +2,9 @@ package streams
 
 import (
 	"fmt"
+	"runtime"
+	"runtime/debug"
+	"sort"
 	"strings"
 
 	"github.com/paulsonkoly/chess-3/board"
@@ -23,6 +26,7 @@ import (
 func init() {
 	hx.Register(&hx.Stream{Name: "c15", Gen: genC15, Run: runC15})
 	hx.Register(&hx.Stream{Name: "m64", Gen: genM64, Run: runM64})
+	hx.Register(&hx.Stream{Name: "c15big", Gen: genC15Big, Run: runC15Big})
 }
 
 func c15Probe(out *hx.Nums, t *transp.Table, h uint64, ply Depth) {
@@ -252,28 +256,20 @@ func genC15(rng *hx.Rng, n int, tier string, emit func(hx.Input)) {
 			ops = append(ops, o)
 		}
 		_ = curNb
+		// scripted family (deliberate, not left to luck): fill; Resize(smaller); Clear; no store;
+		// Resize(back up, inside the old allocation); Clear; everything must be gone
+		regrow := false
+		if nb >= 2 && !malformed && rng.Chance(0.06) {
+			regrow = true
+			resized = true
+			ops = c15RegrowScript(rng, pool, nb, 1+rng.U64()%(nb-1), nb, gen)
+			stores = len(pool)
+		}
 		size0 := int64(nb * 32)
 		if malformed && rng.Chance(0.1) {
 			size0 = []int64{0, 16, 40, -32}[rng.Intn(4)]
 		}
-		in := (&hx.Nums{}).I(size0).Int(np).U(pool...).Int(len(ops))
-		var desc strings.Builder
-		fmt.Fprintf(&desc, "New(%d) pool=%x ops:", size0, pool)
-		for _, o := range ops {
-			in.Int(o.kind).U(o.hash).I(o.gen, o.d, o.ply, o.m, o.v, o.typ)
-			switch o.kind {
-			case 0:
-				fmt.Fprintf(&desc, " Insert(%#x,gen=%d,d=%d,ply=%d,m=%d,v=%d,typ=%d)", o.hash, o.gen, o.d, o.ply, o.m, o.v, o.typ)
-			case 1:
-				fmt.Fprintf(&desc, " LookUp(%#x).Value(%d)", o.hash, o.ply)
-			case 2:
-				desc.WriteString(" Clear()")
-			case 3:
-				fmt.Fprintf(&desc, " Resize(%d)+Clear()", int64(o.hash))
-			case 4:
-				fmt.Fprintf(&desc, " Resize(%d)", int64(o.hash))
-			}
-		}
+		in, desc := c15Encode(size0, pool, ops)
 		tags := []string{}
 		switch {
 		case nb == 1:
@@ -300,10 +296,13 @@ func genC15(rng *hx.Rng, n int, tier string, emit func(hx.Input)) {
 		if malformed {
 			tags = append(tags, "malformed")
 		}
+		if regrow {
+			tags = append(tags, "shrink-clear-regrow-clear")
+		}
 		if nops >= 200 {
 			tags = append(tags, "long")
 		}
-		emit(hx.Input{In: in.String(), Desc: desc.String(), Tags: tags, NonTrivial: stores >= 3})
+		emit(hx.Input{In: in, Desc: desc, Tags: tags, NonTrivial: stores >= 3})
 	}
 }
 
@@ -346,5 +345,213 @@ func genM64(rng *hx.Rng, n int, tier string, emit func(hx.Input)) {
 		tag := fmt.Sprintf("matching-lanes=%d", matches)
 		emit(hx.Input{In: (&hx.Nums{}).U(w, key).String(), Desc: fmt.Sprintf("match64(%#016x, %#04x)", w, key),
 			Tags: []string{tag}, NonTrivial: true})
+	}
+}
+
+// c15Encode writes a case in the input format of the stream together with its readable replay.
+func c15Encode(size0 int64, pool []uint64, ops []c15op) (string, string) {
+	in := (&hx.Nums{}).I(size0).Int(len(pool)).U(pool...).Int(len(ops))
+	var desc strings.Builder
+	fmt.Fprintf(&desc, "New(%d) pool=%x ops:", size0, pool)
+	for _, o := range ops {
+		in.Int(o.kind).U(o.hash).I(o.gen, o.d, o.ply, o.m, o.v, o.typ)
+		switch o.kind {
+		case 0:
+			fmt.Fprintf(&desc, " Insert(%#x,gen=%d,d=%d,ply=%d,m=%d,v=%d,typ=%d)", o.hash, o.gen, o.d, o.ply, o.m, o.v, o.typ)
+		case 1:
+			fmt.Fprintf(&desc, " LookUp(%#x).Value(%d)", o.hash, o.ply)
+		case 2:
+			desc.WriteString(" Clear()")
+		case 3:
+			fmt.Fprintf(&desc, " Resize(%d)+Clear()", int64(o.hash))
+		case 4:
+			fmt.Fprintf(&desc, " Resize(%d)", int64(o.hash))
+		}
+	}
+	return in.String(), desc.String()
+}
+
+func c15Store(rng *hx.Rng, h uint64, gen int64) c15op {
+	o := c15op{kind: 0, hash: h, gen: gen, d: int64(rng.Intn(64)), ply: int64(rng.Intn(64)), typ: int64(rng.Intn(3)), v: c15Value(rng)}
+	if !rng.Chance(0.2) {
+		o.m = 1 + int64(rng.U64()%0xffff)
+	}
+	return o
+}
+
+// c15ResizeClear is Resize(nb buckets) followed by Clear, either as the combined op or as the two
+// separate calls.
+func c15ResizeClear(rng *hx.Rng, nb uint64) []c15op {
+	ply := int64(rng.Intn(64))
+	if rng.Bool() {
+		return []c15op{{kind: 3, hash: nb * 32, ply: ply}}
+	}
+	return []c15op{{kind: 4, hash: nb * 32, ply: ply}, {kind: 2, ply: ply}}
+}
+
+// c15RegrowScript: store every pool key; Resize(small)+Clear; no store; Resize(back)+Clear (every
+// key must be gone: the sweep after the op checks it); then a few stores and a last Clear.
+func c15RegrowScript(rng *hx.Rng, pool []uint64, nb, small, back uint64, gen int64) []c15op {
+	var ops []c15op
+	for _, h := range pool {
+		ops = append(ops, c15Store(rng, h, gen))
+	}
+	ops = append(ops, c15ResizeClear(rng, small)...)
+	if rng.Chance(0.3) {
+		ops = append(ops, c15op{kind: 1, hash: pool[rng.Intn(len(pool))], ply: int64(rng.Intn(64))})
+	}
+	ops = append(ops, c15ResizeClear(rng, back)...)
+	for i := 0; i < 3; i++ {
+		ops = append(ops, c15Store(rng, pool[rng.Intn(len(pool))], gen))
+	}
+	ops = append(ops, c15op{kind: 2, ply: int64(rng.Intn(64))})
+	return ops
+}
+
+// ---------------------------------------------------------------------------------------------
+// c15big: a handful of big tables (8 MB and more: where an implementation may treat Clear / Resize
+// differently, e.g. in parallel chunks) with odd bucket counts; keys aimed at the first and last
+// buckets and at the chunk boundaries for 2..64 workers; GOMAXPROCS is part of the input.
+//
+//	input : gomaxprocs (0 = leave) followed by a c15 input;  output: as c15.  Judge only.
+
+func runC15Big(a hx.Args) string {
+	if a.Len() < 1 {
+		return ""
+	}
+	if procs := a.Int(0); procs > 0 && procs <= 1024 {
+		prev := runtime.GOMAXPROCS(procs)
+		defer runtime.GOMAXPROCS(prev)
+	}
+	out := runC15(a[1:])
+	debug.FreeOSMemory() // the table of this case is garbage now
+	return out
+}
+
+const c15MB = 1 << 20
+
+// bucket counts: 8 / 16 / 24 MB and odd counts around them (primes, 2^k +- 1, +- 7, ...)
+var c15BigBuckets = []uint64{
+	8 * c15MB / 32, 16 * c15MB / 32, 24 * c15MB / 32,
+	262144 + 1, 262144 + 3, 262144 + 7, 262144 + 15, 262147, 262151, 300007, 393241,
+	524288 - 1, 524288 + 1, 524288 - 7, 524288 + 7, 524288 + 2, 524309,
+	786432 - 1, 786432 + 1, 786433, 786432 + 7, 786432 - 7, 786432 + 5,
+}
+
+// c15BigTargets: first buckets, the last 66 buckets (every remainder of a division by up to 64
+// workers lives there) and chunk boundaries for several worker counts.
+func c15BigTargets(rng *hx.Rng, nb uint64, procs int, nBound int) []uint64 {
+	set := map[uint64]struct{}{0: {}, 1: {}, 2: {}}
+	for i := uint64(1); i <= 66; i++ {
+		set[nb-i] = struct{}{}
+	}
+	ws := []uint64{uint64(max(procs, 2)), 2, 3, 5, 6, 7, 12, 16, 24, 32, 48, 64}
+	for j := 0; j < nBound; j++ {
+		w := ws[j%len(ws)]
+		if j >= len(ws) {
+			w = 2 + rng.U64()%63
+		}
+		chunk := nb / w
+		k := 1 + rng.U64()%w
+		for _, b := range []uint64{k*chunk - 1, k * chunk, w*chunk - 1, w * chunk} {
+			if b < nb {
+				set[b] = struct{}{}
+			}
+		}
+	}
+	var bs []uint64
+	for b := range set {
+		bs = append(bs, b)
+	}
+	sort.Slice(bs, func(i, j int) bool { return bs[i] < bs[j] })
+	return bs
+}
+
+// c15BigKeys aims one hash at every target bucket (checked against the implementation's own index
+// through the VerifBucketIx hook; a short search repairs a miss).
+func c15BigKeys(rng *hx.Rng, nb uint64, targets []uint64) []uint64 {
+	t := transp.New(int(nb * 32))
+	var keys []uint64
+	for _, b := range targets {
+		sig := 1 + rng.U64()%0xffff
+		h := hashFor(rng, nb, b, sig)
+		for try := 0; try < 200 && uint64(t.VerifBucketIx(board.Hash(h))) != b; try++ {
+			h = hashFor(rng, nb, b, sig)
+			if try > 100 { // search from the ends of the hash range
+				if b < nb/2 {
+					h = sig<<48 | uint64(try-100)
+				} else {
+					h = sig<<48 | (1<<32 - 1 - uint64(try-100))
+				}
+			}
+		}
+		if uint64(t.VerifBucketIx(board.Hash(h))) == b {
+			keys = append(keys, h)
+		}
+	}
+	return keys
+}
+
+func genC15Big(rng *hx.Rng, n int, tier string, emit func(hx.Input)) {
+	for cnt := 0; cnt < n; cnt++ {
+		nbA := c15BigBuckets[(cnt*7+rng.Intn(3))%len(c15BigBuckets)]
+		nbB := c15BigBuckets[rng.Intn(len(c15BigBuckets))]
+		procs := []int{0, 0, 2, 3, 5, 6, 7, 12, 16, 24, 32, 48, 64, 2 + rng.Intn(63)}[rng.Intn(14)]
+		nBound := 4
+		if tier == "thorough" {
+			nBound = 12
+		}
+		keysA := c15BigKeys(rng, nbA, c15BigTargets(rng, nbA, procs, nBound))
+		gen := []int64{0, 254, 255, int64(rng.Intn(256))}[rng.Intn(4)]
+		var pool []uint64
+		var ops []c15op
+		kind := "store-clear-resize+clear-store-clear"
+		if cnt%3 == 2 {
+			// the shrink / regrow family on a big allocation: the re-exposed tail must be empty
+			kind = "shrink-clear-regrow-clear"
+			small := c15BigBuckets[0] / (1 + uint64(rng.Intn(4)))
+			if rng.Bool() {
+				small = 1 + rng.U64()%(nbA-1)
+			}
+			back := nbA
+			if rng.Chance(0.3) {
+				back = small + 1 + rng.U64()%(nbA-small)
+			}
+			pool = keysA
+			ops = c15RegrowScript(rng, pool, nbA, small, back, gen)
+			nbB = back
+		} else {
+			keysB := c15BigKeys(rng, nbB, c15BigTargets(rng, nbB, procs, nBound))
+			pool = append(append([]uint64{}, keysA...), keysB...)
+			for _, h := range keysA {
+				ops = append(ops, c15Store(rng, h, gen))
+			}
+			ops = append(ops, c15op{kind: 2, ply: int64(rng.Intn(64))}) // Clear: every key must be gone
+			for i := 0; i < 6; i++ {
+				ops = append(ops, c15Store(rng, keysA[len(keysA)-1-rng.Intn(min(66, len(keysA)))], gen))
+			}
+			ops = append(ops, c15ResizeClear(rng, nbB)...)
+			gen = (gen + 1) & 255
+			for _, h := range keysB {
+				ops = append(ops, c15Store(rng, h, gen))
+			}
+			ops = append(ops, c15op{kind: 2, ply: int64(rng.Intn(64))})
+			ops = append(ops, c15op{kind: 1, hash: keysB[len(keysB)-1], ply: int64(rng.Intn(64))})
+		}
+		in, desc := c15Encode(int64(nbA*32), pool, ops)
+		tags := []string{kind, fmt.Sprintf("gomaxprocs=%d", procs)}
+		eff := procs
+		if eff == 0 {
+			eff = runtime.GOMAXPROCS(0)
+		}
+		if nbA%uint64(eff) != 0 || nbB%uint64(eff) != 0 {
+			tags = append(tags, "buckets-not-divisible-by-workers")
+		}
+		if nbA%32768 != 0 {
+			tags = append(tags, "odd-bucket-count")
+		}
+		emit(hx.Input{In: fmt.Sprintf("%x ", procs) + in,
+			Desc: fmt.Sprintf("GOMAXPROCS=%d buckets=%d then %d: ", procs, nbA, nbB) + desc,
+			Tags: tags, NonTrivial: true})
 	}
 }
